@@ -578,6 +578,29 @@ fn add_function(cs: &mut Cs, b: &mut Base, body: &mut dyn FnMut(&mut Cs, &mut Ba
         blk.instructions.push(term);
         f.blocks.push(blk);
     }
+    // loop-carried values: some phi sources name a result defined LATER in the same function
+    // (a forward reference, legal for phis only; every counting loop has one). Results lifted
+    // earlier are not used: the lifter asserts that those have the phi's type.
+    {
+        let mut later: Vec<Vec<u32>> = vec![]; // per block: non-phi result ids of this block and the following ones
+        let per_block: Vec<Vec<u32>> = f
+            .blocks
+            .iter()
+            .map(|bl| bl.instructions.iter().filter(|i| i.class.opcode != spirv::Op::Phi).filter_map(|i| i.result_id).collect())
+            .collect();
+        for bi in 0..f.blocks.len() {
+            later.push(per_block[bi..].iter().flatten().copied().collect());
+        }
+        for (bi, bl) in f.blocks.iter_mut().enumerate() {
+            for i in bl.instructions.iter_mut().filter(|i| i.class.opcode == spirv::Op::Phi) {
+                for k in (0..i.operands.len()).step_by(2) {
+                    if !later[bi].is_empty() && cs.bool() {
+                        i.operands[k] = Operand::IdRef(later[bi][cs.below(later[bi].len())]);
+                    }
+                }
+            }
+        }
+    }
     f.end = Some(inst(spirv::Op::FunctionEnd, None, None, vec![]));
     b.m.functions.push(f);
     nb
